@@ -3,15 +3,22 @@
 package main
 
 import (
+	"flag"
 	"fmt"
 	"os"
 	"strings"
 
 	"github.com/kercylan98/vivid"
 	"github.com/kercylan98/vivid/internal/mailbox"
+	"github.com/kercylan98/vivid/internal/queues"
 	"github.com/kercylan98/vivid/xverif/lib"
 	"github.com/kercylan98/vivid/xverif/vsched"
 )
+
+// fine = the build also instruments internal/queues/ring.go (profile "mbring"): the ring queue's own
+// synchronisation steps (Lock, the atomic add / load of len) are scheduling points, the queue calls of the mailbox
+// are not, and every step's projection includes both rings (coq/Mailbox/MbFine.v instead of MbModel.v).
+var fine = flag.Bool("fine", false, "fine-grained lock-step: ring.go is instrumented too (component mbfine)")
 
 // op kinds of environment threads
 const (
@@ -34,44 +41,78 @@ type config struct {
 	size int64
 }
 
-func labelCode(l string) uint64 {
+// ---- operation classes -------------------------------------------------------------------------------------------
+// A step is identified by WHAT it does - the kind of synchronisation operation and the field / object it acts on -
+// never by the function it is written in or by a source position: the instrumenter's label
+// "<enclosing function>:<callee>[:<operand>]" is reduced to its class by dropping the function and the receiver
+// variable ("processHandle:atomic.AddInt32:&m.num" and "drain:atomic.AddInt32:&mb.num" are both
+// "atomic.AddInt32:num"). The model reports the class of the stepping thread's pc (coq/Mailbox/MbClass.v:
+// class_of_pc / class_of_fpc, class_name); the per-step state comparison tells an increment from a decrement, a
+// Push's Lock from a Pop's.
+
+func stripRecv(s string) string {
+	s = strings.TrimPrefix(s, "&")
+	if i := strings.Index(s, "."); i >= 0 {
+		return s[i+1:]
+	}
+	return s
+}
+
+func classOf(l string) string {
+	if l == "start" {
+		return "start"
+	}
+	parts := strings.Split(l, ":")
+	if len(parts) < 2 {
+		return l
+	}
+	parts = parts[1:] // the enclosing function
 	switch {
-	case l == "start":
-		return 1
-	case l == "Enqueue:m.systemBuffer.Push":
-		return 2
-	case l == "Enqueue:m.buffer.Push":
-		return 3
-	case l == "Enqueue:atomic.AddInt32:&m.systemNum":
-		return 4
-	case l == "Enqueue:atomic.AddInt32:&m.num":
-		return 5
-	case strings.HasSuffix(l, ":atomic.CompareAndSwapUint32:&m.status"):
-		return 6
-	case l == "Pause:atomic.StoreUint32:&m.paused":
-		return 7
-	case l == "Resume:atomic.CompareAndSwapUint32:&m.paused":
-		return 8
-	case l == "processHandle:m.systemBuffer.Pop":
-		return 9
-	case l == "processHandle:atomic.AddInt32:&m.systemNum":
-		return 10
-	case l == "processHandle:m.handler.HandleEnvelop":
-		return 11
-	case strings.HasSuffix(l, ":atomic.LoadUint32:&m.paused") && !strings.HasPrefix(l, "IsPaused"):
-		return 12
-	case l == "processHandle:m.buffer.Pop":
-		return 13
-	case l == "processHandle:atomic.AddInt32:&m.num":
-		return 14
-	case l == "process:atomic.StoreUint32:&m.status":
-		return 15
-	case l == "process:atomic.LoadInt32:&m.num":
-		return 16
-	case l == "process:atomic.LoadInt32:&m.systemNum":
-		return 17
+	case strings.HasPrefix(parts[0], "atomic.") && len(parts) >= 2:
+		return parts[0] + ":" + stripRecv(parts[1])
+	case (parts[0] == "Lock" || parts[0] == "RLock" || parts[0] == "go") && len(parts) >= 2:
+		return parts[0] + ":" + stripRecv(parts[1])
+	}
+	return "call:" + stripRecv(parts[0])
+}
+
+// class_code of coq/Mailbox/MbClass.v
+var classCodes = map[string]uint64{
+	"start":                              1,
+	"call:systemBuffer.Push":             2,
+	"call:buffer.Push":                   3,
+	"atomic.AddInt32:systemNum":          4,
+	"atomic.AddInt32:num":                5,
+	"atomic.CompareAndSwapUint32:status": 6,
+	"atomic.StoreUint32:paused":          7,
+	"atomic.CompareAndSwapUint32:paused": 8,
+	"call:systemBuffer.Pop":              9,
+	"call:handler.HandleEnvelop":         11,
+	"atomic.LoadUint32:paused":           12,
+	"call:buffer.Pop":                    13,
+	"atomic.StoreUint32:status":          15,
+	"atomic.LoadInt32:num":               16,
+	"atomic.LoadInt32:systemNum":         17,
+	"Lock:lock":                          20,
+	"atomic.AddInt64:len":                21,
+	"atomic.LoadInt64:len":               22,
+}
+
+func labelCode(l string) uint64 {
+	if c, ok := classCodes[classOf(l)]; ok {
+		return c
 	}
 	return 98
+}
+
+// readOnlyUnknown: a synchronisation step of a class the model has no step for, which only READS (an atomic load).
+// It is tolerated as a stuttering step iff the projected shared state is identical before and after it; it is then
+// removed from the schedule handed to the model and counted in the report ("tolerated-readonly-step:<class>").
+// Soundness: the step has no effect on shared state; every later step of the same thread still has to match the
+// model's next step for that thread in class and in state, so a control flow that differs because of the value read
+// is a mismatch on every schedule on which it differs. Writes, CAS, locks of an unknown class are never tolerated.
+func readOnlyUnknown(l string) bool {
+	return labelCode(l) == 98 && strings.HasPrefix(classOf(l), "atomic.Load")
 }
 
 type handled struct {
@@ -139,6 +180,38 @@ type result struct {
 	stuck    string
 	final    []lib.T
 	evs      []mev
+	bufs     []lib.T // fine mode: the two ring buffers in full at the end of the run
+	// steps removed from the trace: read-only operations of classes the model has no step for (class -> count)
+	tolerated map[string]int
+}
+
+// slotCode: 0 = nil slot, id+1 = the envelope of message id
+func slotCode(x any) lib.T {
+	if x == nil {
+		return lib.N(0)
+	}
+	return lib.N(x.(vivid.Envelop).Message().(uint64) + 1)
+}
+
+// ringProj = (head tail mod len locked slot[head] slot[tail]) of one RingQueue, read while every goroutine is parked
+func ringProj(q *queues.RingQueue) lib.T {
+	head, tail, mod, length, buf := queues.XVRingDump(q)
+	at := func(i int64) lib.T {
+		if i < 0 || i >= int64(len(buf)) {
+			return lib.N(0)
+		}
+		return slotCode(buf[i])
+	}
+	return lib.L(lib.N(uint64(head)), lib.N(uint64(tail)), lib.N(uint64(mod)), lib.Z(length), lib.Bool(queues.XVRingLocked(q)), at(head), at(tail))
+}
+
+func ringBuf(q *queues.RingQueue) lib.T {
+	_, _, _, _, buf := queues.XVRingDump(q)
+	out := make([]lib.T, len(buf))
+	for i, x := range buf {
+		out[i] = slotCode(x)
+	}
+	return lib.LS(out)
 }
 
 func execute(cfg config, choose func([]int, int) int) result {
@@ -148,6 +221,17 @@ func execute(cfg config, choose func([]int, int) int) result {
 func executeN(cfg config, choose func([]int, int) int, maxSteps int) result {
 	r := &runner{cfg: cfg, inlineBy: map[uint64][]int{}}
 	r.mb = mailbox.NewUnboundedMailbox(cfg.size, r)
+	// crash context: a panic inside the code under test (e.g. processHandle asserting a nil slot to vivid.Envelop) kills
+	// this process from a goroutine of the mailbox and cannot be recovered here; the configuration and every scheduling
+	// decision are therefore written to stderr (unbuffered) as they are taken, so that the last "RUN" line in front of
+	// the panic message is the failing input (configuration + schedule up to the crashing step)
+	fmt.Fprintf(os.Stderr, "\nRUN fine=%v size=%d threads=%s schedule:", *fine, cfg.size, lib.Show(cfgTerm(cfg)))
+	inner := choose
+	choose = func(en []int, last int) int {
+		c := inner(en, last)
+		fmt.Fprintf(os.Stderr, " %d", c)
+		return c
+	}
 	s := vsched.New(choose)
 	s.MaxSteps = maxSteps
 	for tid, o := range cfg.ops {
@@ -167,14 +251,36 @@ func executeN(cfg config, choose func([]int, int) int, maxSteps int) result {
 	}
 	s.Snapshot = func() any {
 		st, pa, n, sn, sl, ul := mailbox.XVState(r.mb)
+		if *fine {
+			sq, uq := mailbox.XVQueues(r.mb)
+			return []lib.T{lib.N(uint64(st)), lib.N(uint64(pa)), lib.Z(int64(n)), lib.Z(int64(sn)), lib.NI(len(r.log)), ringProj(sq), ringProj(uq)}
+		}
 		return []lib.T{lib.N(uint64(st)), lib.N(uint64(pa)), lib.Z(int64(n)), lib.Z(int64(sn)), lib.N(uint64(sl)), lib.N(uint64(ul)), lib.NI(len(r.log))}
 	}
+	initSnap := lib.Show(lib.LS(s.Snapshot().([]lib.T)))
 	s.Run()
-	res := result{trace: s.Trace, choices: s.Choices, log: r.log, deadlock: s.Deadlock, overrun: s.Overrun, overlap: r.overlap, evs: r.evs}
+	// stuttering read-only steps of classes the model does not know (see readOnlyUnknown)
+	var kept []vsched.Step
+	tolerated := map[string]int{}
+	prev := initSnap
+	for _, st := range s.Trace {
+		cur := lib.Show(lib.LS(st.Snap.([]lib.T)))
+		if readOnlyUnknown(st.Label) && cur == prev {
+			tolerated[classOf(st.Label)]++
+			continue
+		}
+		kept = append(kept, st)
+		prev = cur
+	}
+	res := result{trace: kept, choices: s.Choices, log: r.log, deadlock: s.Deadlock, overrun: s.Overrun, overlap: r.overlap, evs: r.evs, tolerated: tolerated}
+	if *fine {
+		sq, uq := mailbox.XVQueues(r.mb)
+		res.bufs = []lib.T{ringBuf(sq), ringBuf(uq)}
+	}
 	if s.Deadlock || s.Overrun {
 		res.stuck = s.Stuck()
 	}
-	for _, st := range s.Trace {
+	for _, st := range kept {
 		res.sched = append(res.sched, st.Tid)
 	}
 	st, pa, n, sn, sl, ul := mailbox.XVState(r.mb)
@@ -210,6 +316,9 @@ func (h *H) emit(cfg config, res result) {
 		sched[i] = lib.NI(t)
 	}
 	in := lib.L(cfgTerm(cfg), lib.LS(sched))
+	if *fine {
+		in = lib.L(lib.N(uint64(cfg.size)), cfgTerm(cfg), lib.LS(sched))
+	}
 	key := lib.Show(in)
 	if h.seen[key] {
 		h.o.Stats["duplicate-schedules"]++
@@ -221,7 +330,7 @@ func (h *H) emit(cfg config, res result) {
 		rec := append([]lib.T{lib.N(labelCode(st.Label))}, st.Snap.([]lib.T)...)
 		steps[i] = lib.LS(rec)
 		if labelCode(st.Label) == 98 {
-			h.o.Stats["unknown-label:"+st.Label]++
+			h.o.Stats["unknown-class:"+classOf(st.Label)]++
 		}
 	}
 	logT := make([]lib.T, len(res.log))
@@ -230,6 +339,9 @@ func (h *H) emit(cfg config, res result) {
 	}
 	terminal := !res.deadlock && !res.overrun
 	out := lib.L(lib.LS(steps), lib.LS(logT), lib.Bool(terminal))
+	if *fine {
+		out = lib.L(lib.LS(steps), lib.LS(logT), lib.Bool(terminal), res.bufs[0], res.bufs[1])
+	}
 	pre := 0
 	for i := 1; i < len(res.sched); i++ {
 		if res.sched[i] != res.sched[i-1] {
@@ -238,6 +350,9 @@ func (h *H) emit(cfg config, res result) {
 	}
 	h.o.Case(fmt.Sprintf("ops=%d", len(cfg.ops)), pre >= 2, in, out)
 	h.o.Stats["steps"] += len(res.trace)
+	for c, n := range res.tolerated {
+		h.o.Stats["tolerated-readonly-step:"+c] += n
+	}
 	// ---- monitors: the property evaluated on what the real mailbox did ----
 	if res.overlap {
 		h.o.Monitor("overlapping-handlers", in, "two HandleEnvelop invocations were in progress at once")
@@ -367,6 +482,16 @@ func (h *H) emit(cfg config, res result) {
 	}
 	for _, st := range res.trace {
 		c := labelCode(st.Label)
+		if c == 21 { // fine mode: a Push takes effect at its atomic add of len (class "atomic.AddInt64:len" is also a Pop's add: a Push's is the one of a sender thread); the queue is the one of the sender's message kind
+			if o, ok := tidMsg[st.Tid]; !ok || o.kind != opSend {
+				continue
+			}
+			if tidMsg[st.Tid].sys {
+				c = 2
+			} else {
+				c = 3
+			}
+		}
 		if c == 2 {
 			pushSys = append(pushSys, tidMsg[st.Tid].msg)
 		} else if c == 3 {
@@ -445,8 +570,9 @@ func randomCfg(r *lib.Rand, maxOps int) config {
 }
 
 func main() {
-	f := lib.ParseFlags()
+	f := lib.ParseFlags() // parses -fine too
 	o := lib.NewOut(f.Out)
+	o.Info["fine"] = *fine
 	h := &H{o: o, seen: map[string]bool{}}
 	r := lib.NewRand(f.Seed)
 	thorough := f.Tier == "thorough"
@@ -472,6 +598,21 @@ func main() {
 	if thorough {
 		bound, perCfg = 3, 6000
 	}
+	if *fine {
+		// the ring's own steps multiply the schedules of a configuration: fewer runs per configuration, and
+		// configurations whose point is the queue - growth at every push (size 1), growth while the cursors are
+		// wrapped around (size 3: three pushes, one pop, two pushes), a consumer popping while senders push
+		perCfg = 60
+		if thorough {
+			perCfg = 4000
+		}
+		fixed = append(fixed,
+			config{ops: []op{u(1), u(2), u(3)}, size: 1},
+			config{ops: []op{u(1), in(u(2), 1), in(u(3), 1), in(u(4), 2), in(u(5), 2), in(u(6), 2)}, size: 3},
+			config{ops: []op{u(1), in(u(2), 1), in(u(3), 1), u(4), u(5)}, size: 3},
+			config{ops: []op{s(1), in(s(2), 1), s(3), u(4), in(u(5), 4)}, size: 2},
+		)
+	}
 	total := 0
 	for _, c := range fixed {
 		total += h.explore(c, bound, perCfg)
@@ -484,11 +625,20 @@ func main() {
 	if thorough {
 		n = 6000
 	}
+	if *fine {
+		n = 150
+		if thorough {
+			n = 4000
+		}
+	}
 	if f.N > 0 {
 		n = f.N
 	}
 	for i := 0; i < n; i++ {
 		cfg := randomCfg(r, 7)
+		if *fine && r.Chance(1, 3) {
+			cfg.size = 3 // not a power of two: the cursors wrap at an odd modulus before the first growth
+		}
 		rr := r.Fork()
 		var ch func([]int, int) int
 		if r.Bool() {
@@ -507,6 +657,12 @@ func main() {
 	if thorough {
 		nb = 40
 	}
+	if *fine {
+		nb = 3
+		if thorough {
+			nb = 20
+		}
+	}
 	for i := 0; i < nb; i++ {
 		k := 64 + r.Intn(97)
 		ops := []op{u(1)}
@@ -523,7 +679,7 @@ func main() {
 		}
 		cfg := config{ops: ops, size: []int64{1, 8, 64, 256}[r.Intn(4)]}
 		rr := r.Fork()
-		h.emit(cfg, executeN(cfg, vsched.StickyChooser(rr.Intn, 3+r.Intn(20)), 40000))
+		h.emit(cfg, executeN(cfg, vsched.StickyChooser(rr.Intn, 3+r.Intn(20)), 80000))
 	}
 	o.Info["backlog_runs"] = nb
 	o.Close(f.Report)
